@@ -292,6 +292,25 @@ func c13Check(c C13Case) *pbt.Violation {
 					return pbt.V("c13.network.blockcount-after-set", "after any history of SetBlock calls the block count equals the number of non-air blocks", "section %d: SetBlock(%d,%d) on the received chunk: BlockCount=%d, it holds %d non-air blocks", s, i, v, got, want)
 				}
 			}
+			if (s+len(c.Ops))%3 == 0 {
+				// the received section grows through every palette width up to direct storage: 300 further distinct states
+				for j := 0; j < 300; j++ {
+					i, v := (s*17+j*13)%4096, (1000+s*401+j*7)%nBlockStates
+					if !airStates[m.blocks[s][i]] {
+						want--
+					}
+					if !airStates[v] {
+						want++
+					}
+					m.blocks[s][i] = v
+					if pv, stack := pbt.Try(func() { dst.Sections[s].SetBlock(i, level.BlocksState(v)) }); pv != nil {
+						return pbt.V(pbt.PanicKey("c13.network.setblock", stack), "SetBlock on a received chunk", "section %d SetBlock(%d,%d) after the read panicked: %v", s, i, v, pv)
+					}
+				}
+				if got := int(dst.Sections[s].BlockCount); got != want {
+					return pbt.V("c13.network.blockcount-after-set", "after any history of SetBlock calls the block count equals the number of non-air blocks", "section %d: after 300 further SetBlock calls on the received chunk: BlockCount=%d, it holds %d non-air blocks", s, got, want)
+				}
+			}
 		}
 		if v := c13CompareSections(dst, m, "network-then-set", false, ch); v != nil {
 			return v
@@ -360,6 +379,28 @@ func c13Check(c C13Case) *pbt.Violation {
 				back.Sections[s].SetBlock(i, level.BlocksState(pool[j]))
 				if got := int(back.Sections[s].BlockCount); got != want {
 					return pbt.V("c13.save.blockcount", "a section's block count equals the number of non-air blocks it holds", "section %d: SetBlock on the loaded chunk: BlockCount=%d, it holds %d non-air blocks", s, got, want)
+				}
+			}
+			if (s+len(c.Ops))%3 == 0 {
+				// the loaded section grows through every palette width up to direct storage
+				for j := 0; j < 300; j++ {
+					i, v := (s*17+j*13)%4096, (1000+s*401+j*7)%nBlockStates
+					if !airStates[m.blocks[s][i]] {
+						want--
+					}
+					if !airStates[v] {
+						want++
+					}
+					m.blocks[s][i] = v
+					back.Sections[s].SetBlock(i, level.BlocksState(v))
+				}
+				if got := int(back.Sections[s].BlockCount); got != want {
+					return pbt.V("c13.save.blockcount", "a section's block count equals the number of non-air blocks it holds", "section %d: after 300 further SetBlock calls on the loaded chunk: BlockCount=%d, it holds %d non-air blocks", s, got, want)
+				}
+				for i, b := range m.blocks[s] {
+					if got := int(back.Sections[s].GetBlock(i)); got != b {
+						return pbt.V("c13.save.block-after-growth", "converting to the save form and back preserves every block state (and the loaded chunk keeps behaving as a chunk)", "section %d position %d: state %d, want %d after 300 further SetBlock calls on the loaded chunk", s, i, got, b)
+					}
 				}
 			}
 		}
